@@ -411,7 +411,13 @@ namespace c15
         pts.push_back(p);
       }
       std::vector<double> S(std::size_t(n), 0.0), SG(std::size_t(n), 0.0);
-      for(auto& p : pts)
+      // (scale only) 16 further points from a private generator, so that the case stream is unchanged: a basis function that
+      // vanishes at the vertices and the centre and happens to be small at the checked points (Lagrange-3 edge functions)
+      // would otherwise get a scale far below its maximum, and the finite-difference guard below would reject correct code
+      std::vector<std::array<double, 3>> spts = pts;
+      { vh::Rng r2(vh::mix64(0xC15C15ull ^ (std::uint64_t(c.k) * 0x9E3779B97F4A7C15ull + std::uint64_t(cell))));
+        for(int q = 0; q < 16; ++q) { std::array<double, 3> p{}; R::random_point(r2, p.data(), 1.0); spts.push_back(p); } }
+      for(auto& p : spts)
       {
         ce.eval(p.data());
         for(int i = 0; i < n; ++i)
